@@ -3,10 +3,13 @@
 usage: run_seeded.py [ids...]  (default: all under /verif/seeded)"""
 import json, os, subprocess, sys
 V = os.path.dirname(os.path.dirname(os.path.abspath(__file__)))
+REPO = os.environ.get("HALO_REPO", "/repo")       # a scratch worktree (with HALO_CACHE) lets several corpus runs go in parallel
 ids = sys.argv[1:] or sorted(os.listdir(os.path.join(V, "seeded")))
 man = json.load(open(os.path.join(V, "MANIFEST.json")))
 checks = [c["property_id"] for c in man["checks"]]
-st = subprocess.run("git -C /repo status --porcelain --untracked-files=no", shell=True, stdout=subprocess.PIPE, text=True).stdout.strip()
+if os.environ.get("HALO_CHECKS"):
+    checks = os.environ["HALO_CHECKS"].split(",")      # partial run while iterating on one rule (results are then partial too)
+st = subprocess.run("git -C %s " % REPO + "status --porcelain --untracked-files=no", shell=True, stdout=subprocess.PIPE, text=True).stdout.strip()
 if st:
     raise SystemExit("/repo has local modifications; refusing:\n" + st)
 summary = {}
@@ -16,7 +19,7 @@ for sid in ids:
     if not os.path.exists(patch):
         continue
     meta = json.load(open(os.path.join(d, "meta.json")))
-    rc = subprocess.run("git -C /repo apply %s" % patch, shell=True).returncode
+    rc = subprocess.run("git -C %s " % REPO + "apply %s" % patch, shell=True).returncode
     if rc != 0:
         print(sid, "PATCH DOES NOT APPLY"); continue
     fired = {}
@@ -32,7 +35,7 @@ for sid in ids:
                 if vs:
                     fired[c] = ["%s at %s: %s" % (v["instance"], v["at"], v["reason"][:160]) for v in vs[:4]]
     finally:
-        subprocess.run("git -C /repo checkout -- . && git -C /repo clean -fdq", shell=True)
+        subprocess.run("git -C %s " % REPO + "checkout -- . && git -C %s clean -fdq -e target" % REPO, shell=True)
     meta["detected_by"] = sorted(fired)
     meta["detection_detail"] = fired
     json.dump(meta, open(os.path.join(d, "meta.json"), "w"), indent=1)
